@@ -50,6 +50,7 @@ Section Sums.
     match l with [] => nofZ N 0 | x :: r => nadd N x (sum_list r) end.
   Fixpoint prod_list (l : list A) : A :=
     match l with [] => nofZ N 1 | x :: r => nmul N x (prod_list r) end.
+  Definition sum_left (l : list A) : A := fold_left (nadd N) l (nofZ N 0).
   Definition sum_over {B : Type} (l : list B) (f : B -> A) : A := sum_list (map f l).
   Definition prod_over {B : Type} (l : list B) (f : B -> A) : A := prod_list (map f l).
   Fixpoint map2 {B C D : Type} (f : B -> C -> D) (l1 : list B) (l2 : list C) : list D :=
